@@ -647,6 +647,74 @@ def ser6(p, res, rd, wr, only=None):
     return n
 
 
+# ---------------------------------------------------------------- SER-7
+_BITS = {"u8": 8, "i8": 8, "u16": 16, "i16": 16, "u32": 32, "i32": 32, "u64": 64, "i64": 64, "usize": 64, "isize": 64, "u128": 128, "i128": 128}
+
+
+def ser7(p, res, rd, wr):
+    """wire width: a scalar written with write_uN / write_iN is not narrowed on its way to the writer (an i64 / usize field needs a 64-bit item),
+    and a scalar read back is not widened from a narrower unsigned item into a signed field"""
+    n = 0
+    fns = []
+    for k, (im, fn) in list(wr.items()) + list(rd.items()):
+        if fn is not None:
+            fns.append(fn)
+    for f in p.lib_fns():
+        if f.name in ("read_from", "write_to") and f.impl_uid and f.trait_item is None and f.uid.startswith("poulpy_"):
+            fns.append(f)
+    seen = set()
+    for fn in fns:
+        if fn.uid in seen:
+            continue
+        seen.add(fn.uid)
+        flow = Flow(fn)
+        for bi, t in fn.calls():
+            d = fn.callee_def(t) or {}
+            pr = d.get("p", "")
+            nm = d.get("n", "")
+            if pr.startswith("byteorder::WriteBytesExt::write_") and len(t["a"]) >= 2:
+                wire = nm[len("write_"):]
+                if wire not in _BITS:
+                    continue
+                n += 1
+                a = t["a"][1]
+                src_ty = None
+                if a[0] in ("c", "m") and len(a[1]) == 1:
+                    ds = flow.defs.get(a[1][0], [])
+                    if len(ds) == 1 and ds[0][0] == "stmt" and ds[0][4]["k"] == "Cast" and ds[0][4].get("ck") == "IntToInt":
+                        o = ds[0][4]["o"][0]
+                        fr = ds[0][4].get("from")
+                        src_ty = fn.ty(fr)["s"] if isinstance(fr, int) else None
+                        # the number of elements of an in-memory collection is bounded by memory, not by the wire width
+                        if o[0] in ("c", "m") and any(r[0] == "call" and (fn.callee_def(fn.blocks[r[1]]["t"]) or {}).get("n") in ("len", "count") for r in flow.op_roots(o)):
+                            src_ty = None
+                if src_ty in _BITS and _BITS[src_ty] > _BITS[wire]:
+                    res.bad("SER-7", fn.pretty, "narrowed:%s->%s" % (src_ty, wire),
+                            "%s writes a %s value as a %s item: values outside the narrower range (negative or large) do not survive the round trip" % (fn.pretty, src_ty, wire),
+                            site=fn.where(t["l"]))
+                else:
+                    res.ok("SER-7", {"fn": fn.pretty, "item": wire, "from": src_ty or wire} if n % 25 == 1 else None)
+            elif pr.startswith("byteorder::ReadBytesExt::read_") and nm[len("read_"):] in _BITS:
+                wire = nm[len("read_"):]
+                # the value (through `?`) cast to a wider signed integer
+                n += 1
+                bad = None
+                for b2, blk in enumerate(fn.blocks):
+                    for s2 in blk["s"]:
+                        if s2[0] == "A" and s2[2]["k"] == "Cast" and s2[2].get("ck") == "IntToInt":
+                            o = s2[2]["o"][0]
+                            if o[0] in ("c", "m") and any(r[0] == "call" and r[1] == bi for r in flow.op_roots(o)):
+                                dst_ty = fn.local_ty(s2[1][0])["s"] if len(s2[1]) == 1 else None
+                                if dst_ty in _BITS and dst_ty.startswith("i") and wire.startswith("u") and _BITS[dst_ty] > _BITS[wire]:
+                                    bad = (dst_ty, s2[3])
+                if bad:
+                    res.bad("SER-7", fn.pretty, "zero-extended:%s->%s" % (wire, bad[0]),
+                            "%s reads a %s item into a %s field: negative values come back zero-extended" % (fn.pretty, wire, bad[0]), site=fn.where(bad[1]))
+                else:
+                    res.ok("SER-7", None)
+    return n
+
+
 def ser5(p, res, rd, wr):
     n = 0
     for table in (rd, wr):
@@ -680,6 +748,7 @@ def run(res, tier):
     res.rule("SER-1", "tainted (stream-derived) values: no unchecked Mul/Add/Sub/shift amount, no unvalidated allocation length, slice bounds compared with the length of the very slice indexed")
     res.rule("SER-2", "a tainted value is stored into n/cols/size/max_size/rows/cols_in/cols_out only when dominated by a comparison chain ending at the receiver's buffer/capacity")
     res.rule("SER-3", "no fallible step (stream read, delegated read, return Err) is reachable after a store to a receiver metadata field or after a delegated sub-object read")
+    res.rule("SER-7", "a scalar is not narrowed on its way to write_uN/iN, and a narrower unsigned item is not widened into a signed field on the way back")
     res.rule("SER-4", "write_to and read_from of a type perform the same ordered sequence of items")
     res.rule("SER-6", "every receiver field serialised by write_to is stored back (or read into) by read_from")
     res.rule("SER-5", "write_to/read_from impls are not generic over a backend and call no backend code")
@@ -706,3 +775,5 @@ def run(res, tier):
         n6 = ser6(p, res, rd, wr)
         res.floor("SER-6", "writer/reader pairs", n6, 28)
         ser5(p, res, rd, wr)
+        n7 = ser7(p, res, rd, wr)
+        res.floor("SER-7", "scalar wire items", n7, 60)
